@@ -1,7 +1,10 @@
 import LolHtml.Thm.C15_Core
 import LolHtml.Thm.C06_Relex
+import LolHtml.Thm.C06_Scan
+import LolHtml.Thm.C09_Bound
+import LolHtml.Lemmas.RelexParse
 /-!
-# C15 — the two sites left open by `C15_no_panic` (`U2`)
+# C15 — the two sites left open by `C15_no_panic` (`U2`) are unreachable: `C15_no_panic_full`
 
 `C15_no_panic` (package inv) leaves two sites, both reachable only if the lexer restarted by the tag
 scanner produced a first tag of another kind than the scanner saw:
@@ -10,26 +13,35 @@ scanner produced a first tag of another kind than the scanner saw:
   end tag);
 * `"RequestLexeme callback: unexpected tag type / empty ns stack"` (`lexHandleFeedback`).
 
-Proved here: the two LOCAL halves — `C15_start_tag_site_local`: the dispatcher never reports the first
-on a start-tag lexeme; `C15_callback_site_local`: `handle_tree_builder_feedback` never reports the
-second when the callback kind fits the token's kind and the simulator is in the state in which
-`get_feedback_for_{start,end}_tag` returned the request.
-`C06_relex_same_tag` (Thm/C06_Relex.lean) proves that the restarted lexer's tag token has the kind,
-hash and name the scanner saw, that the simulator is untouched in between, and that a pending
-aux-info request belongs to a start tag / an unhandled request was computed for this very tag.
+Proved here, for every table satisfying the decidable side-conditions of the scanner ⇄ lexer hand-over
+(`RelexSide`: `HeadOk`, `RelexOk`, `TextTypeOk`, `PhaseOk` for some labellings — checked on the
+regenerated table by `decide +kernel`, `C15_relexSide_gen`):
 
-NOT proved: the global invariant gluing these through `Parser.parseLoop` / `Stream.write` across chunk
-boundaries ("`pending_aux` or an unhandled `RequestLexeme` ⇒ the lexer is inside the re-lexing run of
-that tag"). `C15_no_panic_full_statement` stays a `Prop`; `C15_no_panic_full_of_agreement` derives it
-from `C15_no_panic` and that invariant's consequence.
+* the global invariant (`PX0`, `Lemmas/RelexParse.lean`) through `Parser.parseLoop`, `Stream.write`,
+  `Stream.end`, the rewriter and `run`: *a pending aux-info request or an unhandled `RequestLexeme`
+  ⇒ the lexer is inside the re-lexing run of the hinted tag* — in the head (`HeadStart`, inside one
+  `parse`: the head and its terminator are in the chunk the scanner saw) or between
+  `finish_tag_name` and `emit_tag` (`LexX … inTag`, across chunk breaks): the tag token has the
+  hinted kind, the simulator is in the state in which the request was made; together with the
+  dispatcher's `got_flags_from_hint` bookkeeping (`Disp.Good`, `dispOps_xlaws`);
+* `C15_no_panic_full`: no call of `write* ; end` returns a panic / internal-class error at all.
+
+The lexer's `is_appropriate_end_tag` assertion ("End tag should exist at this point"), the one escape
+of `C06_relex_same_tag`, is not a `U2` site: it is excluded by inv's token certificate
+(`checkCert`, a hypothesis of `C15_no_panic`), generically for every table passing it.
+
+`Parser.parseLoop` maps `Err.internal` to a handler error (release build); `C15_signals_full` states
+the result at the level of one run of the parsing loop, where the internal error is still visible.
 -/
 namespace LolHtml.Thm.C15
 open LolHtml LolHtml.Model LolHtml.Thm.C01
-open LolHtml.Lemmas.Sim (Inv callback_start_good callback_end_good)
+open LolHtml.Lemmas.Sim (Inv)
 
 variable {γ : Type}
 
-/-- **Full statement** (no exception), not proved. -/
+/-- **Full statement** (no exception, no side-condition beyond those of `C15_no_panic`); proved below
+under the additional decidable table side-condition `RelexSide` (`C15_no_panic_full`), which holds of
+the code's table (`C15_no_panic_full_gen`). -/
 def C15_no_panic_full_statement : Prop :=
   ∀ {γ : Type} (w : World γ), WfTable w.tbl = true → checkCert w.tbl (computeCert w.tbl) = true → CtlClean w.ctl →
     ∀ (g : γ) (cfg : Settings) (chunks : List Bytes),
@@ -53,21 +65,7 @@ theorem C15_no_panic_full_of_agreement (w : World γ) (hwf : WfTable w.tbl = tru
     | internal s => exact (h2 s h1).2 rfl
     | _ => trivial
 
-/-! ### site 2: the `RequestLexeme` callback -/
-
-theorem tagViewFor_isStart {k : RLKind} {inp : Bytes} {tok : TagOutline} {v : TagView}
-    (h : tagViewFor k inp tok = some v) : v.isStart = tok.isStart := by
-  cases k <;> cases tok <;> simp only [tagViewFor] at h
-  all_goals first
-    | (simp only [Option.some.injEq] at h; subst h; rfl)
-    | (simp only [Option.map_eq_some_iff] at h; obtain ⟨_, _, rfl⟩ := h; rfl)
-    | skip
-  · -- annotationXmlStart on a start tag
-    split at h
-    · simp at h
-    · split at h
-      · simp only [Option.map_eq_some_iff] at h; obtain ⟨_, _, rfl⟩ := h; rfl
-      · simp only [Option.some.injEq] at h; subst h; rfl
+/-! ### the two sites, locally -/
 
 /-- **site 2, local.** With a callback kind that fits the token's kind, on the simulator state in
 which the request was made (foreign content for start-tag callbacks; an integration point below the
@@ -78,116 +76,314 @@ theorem C15_callback_site_local (inp : Bytes) (c : Common) (sim : Sim) (k : RLKi
     (hend : k = .annotationXmlEnd → tok.isStart = false ∧ ∃ top rest, sim.nsStack = sim.currentNs :: top :: rest) :
     lexHandleFeedback inp c sim (.requestLexeme k) tok ≠
       .error (.panic "RequestLexeme callback: unexpected tag type / empty ns stack") := by
-  unfold lexHandleFeedback
-  dsimp only
-  cases hv : tagViewFor k inp tok with
-  | none => simp
-  | some v =>
-    have hvs := tagViewFor_isStart hv
-    dsimp only
-    have hcb : ∃ s' fb, sim.runCallback k v = some (s', fb) := by
-      by_cases hk : k = .annotationXmlEnd
-      · subst hk
-        obtain ⟨h1, top, rest, h2⟩ := hend rfl
-        obtain ⟨s', fb, h3, _⟩ := callback_end_good sim hi top rest h2 v (by rw [hvs]; exact h1)
-        exact ⟨s', fb, h3⟩
-      · obtain ⟨h1, h2⟩ := hstart hk
-        obtain ⟨s', fb, h3, _⟩ := callback_start_good sim hi h2 k hk v (by rw [hvs]; exact h1)
-        exact ⟨s', fb, h3⟩
-    obtain ⟨s', fb, hcb⟩ := hcb
-    rw [hcb]
-    dsimp only
-    cases fb <;> simp
+  intro h
+  have := (lexHandleFeedback_X inp c sim (.requestLexeme k) tok hi
+    (fun k' hk' => by simp only [Feedback.requestLexeme.injEq] at hk'; subst hk'; exact ⟨hstart, hend⟩)).1 _ h
+  exact this (Or.inr rfl)
 
-/-! ### site 1: a pending aux-info request answered by a start tag -/
+/-- **site 1, local.** `handle_tag` reports "Tag should be a start tag at this point" (or the callback
+assertion) only on an END-tag lexeme while an aux-info request is pending. -/
+theorem C15_start_tag_site_local {ctl : Controller γ} (hc : CtlClean ctl) (inp : Bytes) (lx : TagLexeme) (d : Disp γ)
+    (e : Err) (he : (Disp.handleTag ctl inp lx d).2 = .error e) (hu : U2err e) :
+    d.pendingAux = true ∧ lx.outline.isStart = false :=
+  handleTag_err hc lx d e he hu
 
-theorem tokenProduced_clean {ctl : Controller γ} (hc : CtlClean ctl) (d : Disp γ) (t : Token) (e : Err)
-    (h : (Disp.tokenProduced ctl d t).2 = .error e) : e.Clean := by
-  unfold Disp.tokenProduced at h
-  dsimp only at h
+/-! ### the invariant through the transform stream -/
+
+/-- the two dispatcher flags as the abstract sink flags of `XLaws` -/
+abbrev PendD : Disp γ → Bool := fun d => d.pendingAux
+
+/-- stream invariant between `write` calls: the parser invariant over the held bytes followed by
+whatever comes next -/
+def SXInv (w : World γ) (L : Labels) (TT : TLabels) (P : PLabels) (S : SLabels) (s : Stream γ) : Prop :=
+  ∀ data, PX0 w.env L TT P S PendD Disp.Good (s.pending ++ data) s.parser
+
+section
+variable {w : World γ} {L : Labels} {TT : TLabels} {P : PLabels} {S : SLabels}
+
+theorem PX0_setSink {inp : Bytes} {p : Parser (Disp γ)} (d : Disp γ)
+    (h : PX0 w.env L TT P S PendD Disp.Good inp p) (hpa : d.pendingAux = p.x.sink.pendingAux)
+    (hgf : d.gotFlagsFromHint = p.x.sink.gotFlagsFromHint) :
+    PX0 w.env L TT P S PendD Disp.Good inp { p with x := { p.x with sink := d } } := by
+  have hgood : Disp.Good p.x.sink → Disp.Good d := by
+    intro hg hh
+    rw [hpa]
+    exact hg (by rw [← hgf]; exact hh)
+  cases hd : p.directive with
+  | scan =>
+    simp only [PX0, hd] at h ⊢
+    obtain ⟨hsa, hg, hi⟩ := h
+    refine ⟨⟨⟨hsa.head.scan, hsa.head.stale, hsa.head.head⟩, ⟨hsa.lab.scan, hsa.lab.tt, hsa.lab.endc, ?_⟩,
+      fun q ph v a1 a2 a3 a4 a5 => ⟨(hsa.sem q ph v a1 a2 a3 a4 a5).path, (hsa.sem q ph v a1 a2 a3 a4 a5).sem⟩⟩,
+      hgood hg, hi⟩
+    show d.pendingAux = false
+    rw [hpa]
+    exact hsa.lab.pend
+  | lex =>
+    simp only [PX0, hd] at h ⊢
+    obtain ⟨⟨c0, l0, x0, hm, hcore⟩, hidle⟩ := h
+    simp only [M.mk.injEq, Regs.lexer.injEq] at hm
+    obtain ⟨rfl, rfl, rfl⟩ := hm
+    exact ⟨⟨_, _, _, rfl, hcore.sink d hgood hpa⟩, hidle⟩
+
+theorem flushRemaining_flags {d d' : Disp γ} {inp : Bytes} {k : Nat} (h : d.flushRemaining inp k = .ok d') :
+    d'.pendingAux = d.pendingAux ∧ d'.gotFlagsFromHint = d.gotFlagsFromHint := by
+  unfold Disp.flushRemaining at h
   split at h
-  · rename_i e' he
+  · split at h
+    · cases h
+    · simp only [Except.ok.injEq] at h
+      subst h
+      split <;> exact ⟨rfl, rfl⟩
+  · simp only [Except.ok.injEq] at h
+    subst h
+    exact ⟨rfl, rfl⟩
+
+theorem keepTail_noU2 (s : Stream γ) (data chunk : Bytes) (consumed : Nat) (e : Err)
+    (h : (s.keepTail w data chunk consumed).2 = .error e) : ¬ U2err e := by
+  unfold Stream.keepTail at h
+  by_cases hlt : consumed < chunk.length
+  · simp only [hlt, if_true] at h
+    by_cases hb : s.hasBuffered = true
+    · simp only [hb, if_true] at h
+      cases hsh : s.buf.shift consumed with
+      | some b => rw [hsh] at h; cases h
+      | none => rw [hsh] at h; simp only [Except.error.injEq] at h; subst h; simp [U2err, U2]
+    · have hb' : s.hasBuffered = false := by simpa using hb
+      simp only [hb', Bool.false_eq_true, if_false] at h
+      by_cases hi : (s.buf.initWith (data.drop consumed)).2 = true
+      · simp only [hi, if_true] at h; cases h
+      · simp only [hi, Bool.false_eq_true, if_false, Except.error.injEq] at h; subst h; simp [U2err]
+  · simp only [hlt, if_false] at h; cases h
+
+theorem finish_noU2 (hc : CtlClean w.ctl) (d : Disp γ) (inp : Bytes) (e : Err)
+    (h : (d.finish w.ctl inp).2 = .error e) : ¬ U2err e := by
+  unfold Disp.finish at h
+  cases hfl : d.flushRemaining inp inp.length with
+  | error e' =>
+    rw [hfl] at h
+    simp only [DRes.ofExcept, DRes.bind, Except.error.injEq] at h
+    subst h
+    unfold Disp.flushRemaining at hfl
+    (repeat' split at hfl) <;> first | (cases hfl; done) | (simp only [Except.error.injEq] at hfl; subst hfl; simp [U2err, U2])
+  | ok d' =>
+    rw [hfl] at h
+    simp only [DRes.ofExcept, DRes.bind] at h
+    split at h
+    · rename_i e' herr
+      simp only [Except.error.injEq] at h
+      subst h
+      exact not_U2err_of_clean (hc.handleEnd _ _ herr)
+    · cases h
+
+theorem Stream.new_SX (hside : RelexSide w.tbl L TT P S) (g : γ) (cfg : Settings) :
+    SXInv w L TT P S (Stream.new w g cfg) := by
+  intro data
+  simp only [Stream.new]
+  by_cases hinit : (w.ctl.initialFlags g).isEmpty = true
+  · simp only [hinit, if_true, PX0, Parser.new]
+    refine ⟨⟨HInv.of_none rfl rfl rfl, ⟨rfl, ?_, fun _ => rfl, rfl⟩, HSem_of_none rfl⟩, fun _ => rfl,
+      LolHtml.Lemmas.Sim.inv_new _⟩
+    exact tt_flows (TextTypeOk_text hside.tt .data) (x := TextType.data) (fun tt h => by simpa using h)
+  · simp only [hinit, Bool.false_eq_true, if_false, PX0, Parser.new]
+    exact ⟨⟨_, _, _, rfl, fun _ => rfl, LolHtml.Lemmas.Sim.inv_new _, Or.inl ⟨rfl, rfl⟩⟩, rfl, rfl, rfl⟩
+
+/-- **`TransformStream::write`** keeps the invariant and reports no `U2` error -/
+theorem Stream.write_X (hc : CtlClean w.ctl) (hside : RelexSide w.tbl L TT P S) (s : Stream γ) (data : Bytes)
+    (hs : SXInv w L TT P S s) :
+    (∀ e, (s.write w data).2 = .error e → ¬ U2err e) ∧
+    ((s.write w data).2 = .ok () → SXInv w L TT P S (s.write w data).1) := by
+  unfold Stream.write
+  cases hcf : s.chunkFor w data with
+  | inl s' =>
+    refine ⟨fun e h => ?_, fun h => by cases h⟩
     simp only [Except.error.injEq] at h
     subst h
-    exact hc.token _ _ _ he
-  · simp at h
-
-/-- **site 1, local.** On a START-tag lexeme `handle_tag` never reports an internal error (for a
-controller that does not itself return one): `"Tag should be a start tag at this point"` needs an
-end-tag lexeme while an aux-info request is pending. -/
-theorem C15_start_tag_site_local {ctl : Controller γ} (hc : CtlClean ctl) (inp : Bytes) (lx : TagLexeme) (d : Disp γ)
-    (hstart : lx.outline.isStart = true) (s : String) :
-    (Disp.handleTag ctl inp lx d).2 ≠ .error (.internal s) := by
-  have hclean : ∀ e : Err, e.Clean → e ≠ .internal s := by
-    intro e he h; subst h; exact he
-  have hbind : ∀ {α β : Type} (r : DRes γ α) (f : Disp γ → α → DRes γ β),
-      r.2 ≠ .error (.internal s) → (∀ d a, (f d a).2 ≠ .error (.internal s)) → (DRes.bind r f).2 ≠ .error (.internal s) := by
-    intro α β r f h1 h2
-    unfold DRes.bind
-    split
-    · rename_i e he
-      intro hh
-      exact h1 (by rw [he]; simpa using hh)
-    · exact h2 _ _
-  have hflush : ∀ d : Disp γ, (d.flushPendingText ctl).2 ≠ .error (.internal s) := by
-    intro d
-    unfold Disp.flushPendingText
-    split
-    · intro h; exact hclean _ (tokenProduced_clean hc _ _ _ h) rfl
-    · simp
-  have haux : ∀ (d : Disp γ) (info : AuxInfo), (d.answerAux ctl info).2 ≠ .error (.internal s) := by
-    intro d info
-    unfold Disp.answerAux
+    simp [U2err]
+  | inr sc =>
+    obtain ⟨s1, chunk⟩ := sc
+    obtain ⟨c1, c2, c3, c4, c5⟩ := Stream.chunkFor_inr hcf
     dsimp only
-    split
-    · simp
-    · rename_i e he
-      intro h
+    subst c1
+    have hp1 : PX0 w.env L TT P S PendD Disp.Good (s.pending ++ data) s1.parser := by rw [c2]; exact hs data
+    obtain ⟨q1, q2⟩ := parse_X (env := w.env) (inp := s.pending ++ data) (dispOps_xlaws hc) hside false s1.parser hp1
+    cases hpr : (s1.parser.parse w.env (s.pending ++ data) false).2 with
+    | error e =>
+      dsimp only
+      refine ⟨fun e' h => ?_, fun h => by cases h⟩
       simp only [Except.error.injEq] at h
-      exact hclean _ (hc.auxInfo _ _ _ he) h
-  have hemit : ∀ (d : Disp γ) (raw : Range) (tok : Token), (d.emitToken ctl inp raw tok).2 ≠ .error (.internal s) := by
-    intro d raw tok
-    unfold Disp.emitToken
-    apply hbind
-    · unfold DRes.ofExcept Disp.emitChunkBefore
-      cases checkedSlice inp ⟨d.rcs, raw.start⟩ <;> simp
-    · intro d1 _
-      apply hbind
-      · intro h; exact hclean _ (tokenProduced_clean hc _ _ _ h) rfl
-      · intro d2 _; simp
-  unfold Disp.handleTag
-  apply hbind _ _ (hflush d)
-  intro d1 _
-  apply hbind
-  · split
-    · simp
-    · unfold Disp.adjustFlagsForTag
-      cases ho : lx.outline with
-      | endTag n h => rw [ho] at hstart; simp [TagOutline.isStart] at hstart
-      | startTag n h ns as sc =>
-        by_cases hp : d1.pendingAux = true
-        · simp only [hp, if_true]
-          exact haux _ _
-        · simp only [hp, Bool.false_eq_true, if_false]
-          cases hln : LocalName.new inp n h with
-          | none => simp
-          | some ln =>
-            dsimp only
-            cases hr : (ctl.startTag d1.ctl ln ns).2 with
-            | flags f => simp
-            | infoRequest => exact haux _ _
-            | err e =>
-              intro hh
-              simp only [Except.error.injEq] at hh
-              exact hclean _ (hc.startTag _ _ _ _ hr) hh
-  · intro d2 _
-    apply hbind
-    · unfold Disp.produceTag
-      split
-      · simp
-      · split
-        · simp
-        · exact hemit _ _ _
-    · intro d3 _; simp
+      subst h
+      exact q1 e hpr
+    | ok consumed =>
+      dsimp only
+      have hnext := q2 consumed hpr rfl
+      cases hfl : Disp.flushRemaining (Stream.disp { s1 with parser := (s1.parser.parse w.env (s.pending ++ data) false).1 })
+          (s.pending ++ data) consumed with
+      | error e =>
+        dsimp only
+        refine ⟨fun e' h => ?_, fun h => by cases h⟩
+        simp only [Except.error.injEq] at h
+        subst h
+        unfold Disp.flushRemaining at hfl
+        (repeat' split at hfl) <;> first | (cases hfl; done) | (simp only [Except.error.injEq] at hfl; subst hfl; simp [U2err, U2])
+      | ok d =>
+        dsimp only
+        refine ⟨fun e h => keepTail_noU2 _ _ _ _ e h, fun hres => ?_⟩
+        obtain ⟨k1, k2⟩ := LolHtml.Thm.C09.keepTail_pending (w := w)
+          (s := Stream.setDisp { s1 with parser := (s1.parser.parse w.env (s.pending ++ data) false).1 } d)
+          (data := data) (chunk := s.pending ++ data) (consumed := consumed)
+          (by intro hb; exact c5 (by simpa [Stream.setDisp, c3] using hb))
+          (by intro hb
+              have : s.hasBuffered = false := by simpa [Stream.setDisp, c3] using hb
+              simp [Stream.pending, this])
+          hres
+        obtain ⟨f1, f2⟩ := flushRemaining_flags hfl
+        intro data'
+        rw [k1, k2]
+        exact PX0_setSink d (hnext data') f1 f2
+
+/-- **`TransformStream::end`** reports no `U2` error -/
+theorem Stream.end_X (hc : CtlClean w.ctl) (hside : RelexSide w.tbl L TT P S) (s : Stream γ)
+    (hs : SXInv w L TT P S s) : ∀ e, (s.end w).2 = .error e → ¬ U2err e := by
+  intro e he
+  unfold Stream.end at he
+  have hp1 : PX0 w.env L TT P S PendD Disp.Good (if s.hasBuffered then s.buf.data else []) s.parser := by
+    have := hs []
+    simpa [Stream.pending] using this
+  obtain ⟨q1, _⟩ := parse_X (env := w.env) (dispOps_xlaws hc) hside true s.parser hp1
+  dsimp only at he
+  cases hpr : (s.parser.parse w.env (if s.hasBuffered then s.buf.data else []) true).2 with
+  | error e' =>
+    rw [hpr] at he
+    dsimp only at he
+    simp only [Except.error.injEq] at he
+    subst he
+    exact q1 e' hpr
+  | ok consumed =>
+    rw [hpr] at he
+    dsimp only at he
+    exact finish_noU2 hc _ _ e he
+
+/-- invariant of the public object -/
+def RXInv (w : World γ) (L : Labels) (TT : TLabels) (P : PLabels) (S : SLabels) (r : Rewriter γ) : Prop :=
+  r.poisoned = true ∨ SXInv w L TT P S r.stream
+
+theorem Rewriter.write_X (hc : CtlClean w.ctl) (hside : RelexSide w.tbl L TT P S) (r : Rewriter γ) (data : Bytes)
+    (hr : RXInv w L TT P S r) :
+    (∀ e, (r.write w data).2 = .err e → ¬ U2err e) ∧ RXInv w L TT P S (r.write w data).1 := by
+  unfold Rewriter.write
+  by_cases hp : r.poisoned = true
+  · simp only [hp, if_true]
+    exact ⟨fun e h => (by cases h), Or.inl hp⟩
+  · have hs : SXInv w L TT P S r.stream := by rcases hr with h | h; exact absurd h hp; exact h
+    simp only [hp, Bool.false_eq_true, if_false]
+    obtain ⟨h1, h2⟩ := Stream.write_X hc hside r.stream data hs
+    cases hres : (r.stream.write w data).2 with
+    | ok u => exact ⟨fun e h => (by cases h), Or.inr (h2 hres)⟩
+    | error e =>
+      refine ⟨fun e' h => ?_, Or.inl rfl⟩
+      simp only [CallRes.err.injEq] at h
+      subst h
+      exact h1 e hres
+
+theorem Rewriter.end_X (hc : CtlClean w.ctl) (hside : RelexSide w.tbl L TT P S) (r : Rewriter γ)
+    (hr : RXInv w L TT P S r) : ∀ e, (r.end w).2 = .err e → ¬ U2err e := by
+  unfold Rewriter.end
+  by_cases hp : r.poisoned = true
+  · simp only [hp, if_true]
+    intro e h; cases h
+  · have hs : SXInv w L TT P S r.stream := by rcases hr with h | h; exact absurd h hp; exact h
+    simp only [hp, Bool.false_eq_true, if_false]
+    have h1 := Stream.end_X hc hside r.stream hs
+    cases hres : (r.stream.end w).2 with
+    | ok u => intro e h; cases h
+    | error e =>
+      intro e' h
+      simp only [CallRes.err.injEq] at h
+      subst h
+      exact h1 e hres
+
+theorem writeAll_X (hc : CtlClean w.ctl) (hside : RelexSide w.tbl L TT P S) (chunks : List Bytes) (r : Rewriter γ)
+    (hr : RXInv w L TT P S r) :
+    (∀ e, .err e ∈ (writeAll w r chunks).2 → ¬ U2err e) ∧ RXInv w L TT P S (writeAll w r chunks).1 := by
+  induction chunks generalizing r with
+  | nil => exact ⟨fun e hx => (by cases hx), hr⟩
+  | cons c cs ih =>
+    simp only [writeAll]
+    obtain ⟨h1, h2⟩ := Rewriter.write_X hc hside r c hr
+    obtain ⟨h3, h4⟩ := ih _ h2
+    refine ⟨fun e hx => ?_, h4⟩
+    simp only [List.mem_cons] at hx
+    rcases hx with hx | hx
+    · exact h1 e hx.symm
+    · exact h3 e hx
+
+end
+
+/-! ### the theorem -/
+
+/-- **no call fails at a `U2` site**: for every table satisfying the hand-over side-conditions, every
+tag configuration, every controller that never returns a panic/internal-class error itself, every
+settings record, every list of writes followed by `end`. -/
+theorem C15_agreement (w : World γ) (L : Labels) (TT : TLabels) (P : PLabels) (S : SLabels)
+    (hside : RelexSide w.tbl L TT P S) (hc : CtlClean w.ctl) (g : γ) (cfg : Settings) (chunks : List Bytes) :
+    ∀ e, .err e ∈ (run w (Rewriter.new w g cfg) chunks).2 → ¬ U2err e := by
+  have h0 : RXInv w L TT P S (Rewriter.new w g cfg) := Or.inr (Stream.new_SX hside g cfg)
+  obtain ⟨h1, h2⟩ := writeAll_X hc hside chunks _ h0
+  intro e hx
+  simp only [run, List.mem_append, List.mem_singleton] at hx
+  rcases hx with hx | hx
+  · exact h1 e hx
+  · exact Rewriter.end_X hc hside _ h2 e hx.symm
+
+/-- **C15_no_panic_full.** For every tokenizer table satisfying `WfTable`, the token-part certificate
+check and the scanner ⇄ lexer hand-over side-conditions `RelexSide` (all decidable, all re-checked on
+the regenerated table), every tag configuration, every controller that never returns a
+panic/internal-class error itself, every settings record and every list of writes followed by `end`:
+**no** call returns `.err (.panic s)` or `.err (.internal s)`, for any `s`. -/
+theorem C15_no_panic_full (w : World γ) (L : Labels) (TT : TLabels) (P : PLabels) (S : SLabels)
+    (hwf : WfTable w.tbl = true) (hcert : checkCert w.tbl (computeCert w.tbl) = true)
+    (hside : RelexSide w.tbl L TT P S) (hc : CtlClean w.ctl) (g : γ) (cfg : Settings) (chunks : List Bytes) :
+    ∀ x ∈ (run w (Rewriter.new w g cfg) chunks).2, Model.CallOK (fun _ => False) x := by
+  apply C15_no_panic_full_of_agreement w hwf hcert hc g cfg chunks
+  intro x hx s hs
+  constructor
+  · intro h
+    subst h
+    exact C15_agreement w L TT P S hside hc g cfg chunks _ hx hs
+  · intro h
+    subst h
+    exact C15_agreement w L TT P S hside hc g cfg chunks _ hx hs
+
+/-- **C15_signals_full.** At the level of one run of the parsing loop, where `ActionError::Internal`
+is still visible (`Parser.parseLoop` maps it to a handler error, as the release build does): from the
+parser invariant — also right after a scanner → lexer hand-over (`PX1`) — the loop never ends with
+`"Tag should be a start tag at this point"` nor with the `RequestLexeme` callback assertion. -/
+theorem C15_signals_full (w : World γ) (L : Labels) (TT : TLabels) (P : PLabels) (S : SLabels)
+    (hside : RelexSide w.tbl L TT P S) (hc : CtlClean w.ctl) (inp : Bytes) (last : Bool) (p : Parser (Disp γ))
+    (hp : PX1 w.env L TT P S PendD Disp.Good inp p) (e : Err)
+    (he : (runLoop w.env inp (defaultFuel inp) (p.machine last)).2 = .err e) :
+    e ≠ .internal "Tag should be a start tag at this point" ∧
+    e ≠ .panic "RequestLexeme callback: unexpected tag type / empty ns stack" := by
+  have := run_X (env := w.env) (dispOps_xlaws hc) hside last p hp e he
+  constructor
+  · intro h; subst h; exact this (Or.inl rfl)
+  · intro h; subst h; exact this (Or.inr rfl)
+
+/-! ### the code's current table -/
+
+/-- **C15_relexSide_gen.** The hand-over side-conditions, evaluated by the kernel on the regenerated
+table (the four checks are `C06_headOk_gen`, `C06_relexOk_gen`, `C06_textTypeOk_gen`, `C06_phaseSide_gen`). -/
+theorem C15_relexSide_gen :
+    RelexSide Gen.Syntax.table C06.genHeadLabels C06.genTextLabels C06.genPhaseLabels C06.genShadows :=
+  ⟨C06.C06_headOk_gen, C06.C06_relexOk_gen, C06.C06_textTypeOk_gen, C06.C06_phaseSide_gen⟩
+
+/-- **C15_no_panic_full_gen.** The full statement at the code's current table: every tag
+configuration, clean controller, settings record, chunking. -/
+theorem C15_no_panic_full_gen (w : World γ) (htbl : w.tbl = Gen.Syntax.table) (hc : CtlClean w.ctl)
+    (g : γ) (cfg : Settings) (chunks : List Bytes) :
+    ∀ x ∈ (run w (Rewriter.new w g cfg) chunks).2, Model.CallOK (fun _ => False) x :=
+  C15_no_panic_full w _ _ _ _ (by rw [htbl]; exact C15_gen) (by rw [htbl]; exact C15_cert_gen)
+    (by rw [htbl]; exact C15_relexSide_gen) hc g cfg chunks
 
 end LolHtml.Thm.C15
